@@ -586,7 +586,30 @@ impl Check for C11 {
         if sc.sub == "raw_section" {
             st.distinct(fnv(&sc.stream) ^ sc.aux);
             st.hit("probe:raw_section");
-            let section = &sc.stream;
+            // recycled memory: the allocation the section lives in held another section of the
+            // same size, which was iterated there, before these bytes were copied over it
+            let mut memory: Vec<u8> = Vec::new();
+            if let Some(prev) = &sc.recycled {
+                if prev.stream.len() == sc.stream.len() {
+                    memory = prev.stream.clone();
+                    let _ = guard(|| {
+                        let mut n = 0usize;
+                        for item in TypeLengthValues::from(&memory[..]) {
+                            n += 1;
+                            if item.is_err() || n > memory.len() / 3 + 2 {
+                                break;
+                            }
+                        }
+                    });
+                    memory.copy_from_slice(&sc.stream);
+                    st.hit("fault:recycled_section_memory");
+                }
+            }
+            let section: &Vec<u8> = if memory.len() == sc.stream.len() && sc.recycled.is_some() {
+                &memory
+            } else {
+                &sc.stream
+            };
             let r = guard(|| {
                 let mut j = Judge { st: &mut *st };
                 j.judge(
@@ -699,6 +722,9 @@ impl Check for C11 {
         out
     }
 
+    fn interference(&self) -> bool {
+        true
+    }
     fn required_probes(&self, tier: Tier) -> Vec<&'static str> {
         let v = vec![
             "probe:section_of_accepted_header",
